@@ -128,7 +128,7 @@ Definition new_modular_network (inL outL : list Z) (allL control : list pnode) (
   {| net_id := net_id n; net_inputs := net_inputs n; net_outputs := net_outputs n; net_all := net_all n;
      net_control := control; net_all_mimo := net_all_mimo n ++ control |}.
 
-(* func (g *Genome) Genesis(netId int) (*network.Network, error) *)
+(* func (g *Genome) Genesis(netId int): the network, or an error *)
 Definition genesis (g : genome) (netId : Z) : res pnet :=
   let '(inList, outList, allList) := gen_nodes (nodes g) [] [] [] in
   match genes g with
